@@ -110,7 +110,7 @@ class Translator:
             if node.attr == "size":
                 v, t = self.expr(node.value, env, sp)
                 if is_list(t):
-                    return ("(Z.of_nat (length %s))" % v, "Z")
+                    return ("(Z.of_nat (List.length %s))" % v, "Z")
             raise Refuse("attribute %s" % ast.dump(node))
         if isinstance(node, ast.NamedExpr):
             raise Refuse("walrus must be hoisted by statement translation")
@@ -229,8 +229,19 @@ class Translator:
 
     def call(self, node, env, sp):
         name = call_name(node)
+        if name == "np.zeros_like" and len(node.args) == 1 and len(node.keywords) == 1 and node.keywords[0].arg == "dtype" \
+           and isinstance(node.keywords[0].value, ast.Name) and node.keywords[0].value.id == "bool":
+            v, t = self.expr(node.args[0], env, sp)
+            if is_list(t):
+                return ("(repeat false (List.length %s))" % v, "LB")
+            raise Refuse("zeros_like arg")
         if node.keywords:
             raise Refuse("keyword arguments in call %s" % name)
+        if name == ".sum" and not node.args:
+            v, t = self.expr(node.func.value, env, sp)
+            if t == "LB":
+                return ("(NP.zcount %s)" % v, "Z")
+            raise Refuse(".sum() of %s" % (t,))
         args = [self.expr(a, env, sp) for a in node.args] if name not in ("np.round", "round", "np.array") else None
         if name in ("np.min", "np.max") or name in (".min", ".max"):
             if name.startswith("."):
@@ -294,7 +305,7 @@ class Translator:
             return ("(QL.isclose %s %s)" % (self.toQ((a, ta)), self.toQ((b, tb))), "B")
         if name == "len":
             (a, ta), = args
-            if is_list(ta): return ("(Z.of_nat (length %s))" % a, "Z")
+            if is_list(ta): return ("(Z.of_nat (List.length %s))" % a, "Z")
             raise Refuse("len type")
         # known (already translated or prelude-modelled) functions
         key = name.split(".")[-1]
@@ -335,6 +346,16 @@ class Translator:
                 for w in ast.walk(s.test):
                     if isinstance(w, ast.NamedExpr) and w.target.id not in out:
                         out.append(w.target.id)
+        return out
+
+    def used_names(self, stmts):
+        out = set()
+        for st in stmts:
+            for n in ast.walk(st):
+                if isinstance(n, ast.Name):
+                    out.add(n.id)
+                elif isinstance(n, ast.Attribute) and isinstance(n.value, ast.Name) and n.value.id == "self":
+                    out.add("self." + n.attr)
         return out
 
     def exits(self, stmts):
@@ -400,6 +421,15 @@ class Translator:
                         nm = tgt.value.id
                         env2 = dict(env); env2[nm] = (nm, "LZ")
                         return "let %s := (NP.replace_eq %s %s %s) in\n  %s" % (nm, env[nm][0], a, b, self.block(rest, env2, sp, ctx))
+                if isinstance(tgt.value, ast.Name) and isinstance(tgt.slice, ast.Slice) and tgt.slice.step is None and \
+                   tgt.value.id in env and env[tgt.value.id][1] == "LB":
+                    nm = tgt.value.id
+                    lo = self.expr(tgt.slice.lower, env, sp) if tgt.slice.lower is not None else ("(0)", "Z")
+                    hi = self.expr(tgt.slice.upper, env, sp) if tgt.slice.upper is not None else ("(Z.of_nat (List.length %s))" % env[nm][0], "Z")
+                    b, tb = self.expr(s.value, env, sp)
+                    if lo[1] == "Z" and hi[1] == "Z" and tb == "B":
+                        env2 = dict(env); env2[nm] = (nm, "LB")
+                        return "let %s := (NP.set_slice %s %s %s %s) in\n  %s" % (nm, env[nm][0], lo[0], hi[0], b, self.block(rest, env2, sp, ctx))
                 raise Refuse("subscript assignment %s" % ast.unparse(s))
             v, t = self.expr(s.value, env, sp)
             env2 = dict(env)
@@ -441,6 +471,8 @@ class Translator:
                 return "%sif %s then (%s)\n  else (%s)" % (pre, c, a, b)
             # pure assignment if: tuple-let of the assigned variables
             vs = self.assigned(s.body) + [v for v in self.assigned(s.orelse) if v not in self.assigned(s.body)]
+            live = self.used_names(rest) | set("self." + a for a in (sp.self_out or []))
+            vs = [v for v in vs if v in live]
             if not vs:
                 return pre + self.block(rest, env1, sp, ctx)
             types = {}
